@@ -3,4 +3,5 @@ CONSTANTS
   Tier = "thorough"
 INVARIANT InvClaims
 INVARIANT InvUnwrapDomain
+INVARIANT InvShapesDomain
 CHECK_DEADLOCK FALSE
